@@ -82,10 +82,12 @@ Cmt(text, sp, sn) == [k |-> "cmt", text |-> text, sp |-> sp, sn |-> sn]
 
 \* ------------------------------------------------------------------ well-formedness
 \* What the parser can produce for kinds the generators use (identifier-only positions).
-IsIdent(s) == s \in {"a", "b", "c", "d", "f", "g", "i", "j", "x", "y", "z", "m", "nil", "..", "key", "k1"}
+IsIdent(s) == s \in {"a", "b", "c", "d", "f", "g", "i", "j", "x", "y", "z", "m", "nil", "..", "key", "k1", "e3", "_x"}
 RECURSIVE WF(_)
 WFSeq(s) == \A i \in 1..Len(s) : WF(s[i])
-\* a bare `return` can only be the last statement of a list (the parser rejects `return;`)
+\* a bare `return` can only be the last statement of a list (the parser rejects `return;`).  WF is what the tree
+\* generators rely on; whether the REAL parser produces more than this is not assumed anywhere: the source-level family
+\* (GenSources) hands texts such as `return` newline `a` to the real parser and judges whatever tree comes out.
 WFList(s) == WFSeq(s) /\ \A i \in 1..Len(s) : (s[i].k = "ret" /\ s[i].e.k = "none") => i = Len(s)
 WF(t) ==
   CASE t.k \in {"none", "brk", "cnt", "int", "float", "bool", "raw"} -> TRUE
@@ -330,6 +332,73 @@ Params == << <<>>, <<"x">>, <<"x", "y">>, <<"x", "..">>, <<"..">> >>
 IsVar(ps) == Len(ps) > 0 /\ ps[Len(ps)] = ".."
 FuncForms(ps, body) == << Fn("g", ps, IsVar(ps), FALSE, body), Fn("", ps, IsVar(ps), FALSE, body), Fn("", ps, IsVar(ps), TRUE, body) >>
 
+\* ---- round 4 ----------------------------------------------------------------------------------------------
+\* (1) blocks that BEGIN with comments.  Compact mode drops them, so the first statement PRINTED is not the first of
+\* the list: what is written in front of it must still depend on what was printed, not on its index.  Every
+\* statement-start class (all statement kinds plus every way a statement can start with a sign character or a dot),
+\* in every block position, behind one or two leading comments.
+SignStarts == << [n |-> "plus",     t |-> Pre("+", A)],
+                 [n |-> "predecr",  t |-> Pre("--", Id("i"))],
+                 [n |-> "xor",      t |-> Pre("^", Id("m"))],
+                 [n |-> "tilde",    t |-> Pre("~", A)],
+                 [n |-> "minint",   t |-> MinInt],
+                 [n |-> "minhex",   t |-> MinIntHex],
+                 [n |-> "negsum",   t |-> Inf("+", Pre("-", A), B)],
+                 [n |-> "negasg",   t |-> Asg(FALSE, A, Pre("-", B))],
+                 [n |-> "dotfloat", t |-> Raw(".5")] >>
+StartClasses == Stmts \o SignStarts
+DeepCtxNames == <<"elseif", "iffunc", "forlam", "ifelse2">>      \* block positions InBlock does not have (indent 1, 2, 2, 2)
+InDeep(name, ss) ==
+  CASE name = "elseif"  -> <<IfElse(Z, <<One>>, <<IfElse(C3, ss, <<Two>>)>>)>>
+    [] name = "iffunc"  -> <<If(Z, <<Fn("g", <<"x">>, FALSE, FALSE, ss)>>)>>
+    [] name = "forlam"  -> <<For(Z, <<Asg(FALSE, Id("f"), Lam(<<"x">>, ss))>>)>>
+    [] name = "ifelse2" -> <<Fn("g", <<"x">>, FALSE, FALSE, <<IfElse(Z, <<One>>, ss)>>)>>
+    [] OTHER            -> InBlock(name, ss)
+AllBlockCtx == CmtBlockCtx \o DeepCtxNames
+
+\* (2) statement boundaries around the dot of a float literal.  `1` `.5` glued is the number 1.5, `2.` `e3` glued is
+\* 2000, `2.` `3` is 2.3: the characters that make ONE number token include the dot, on both sides of the boundary.
+DotEnds   == << One, Ret(One), Pre("-", One), Raw("2."), Ret(Raw("2.")), Raw(".5"), Raw("1e3"), A, Id("e3"),
+                Asg(FALSE, A, Raw("2.")), Post("++", "i"), Dot(A, "b"), Call(Id("f"), <<Raw("2.")>>), Id("_x") >>
+DotStarts == << Raw(".5"), Inf("*", Raw(".5"), A), One, Raw("2."), Raw("1e3"), Id("e3"), Asg(FALSE, Id("e3"), One),
+                Call(Id("e3"), <<A>>), A, Ret(Raw(".5")), Idx(Raw(".5"), One), Id("_x") >>
+DotBlockCtx == IF Thorough THEN AllBlockCtx ELSE <<"top", "func", "lambda">>
+
+\* (3) multi-line block comments: 2-4 lines, with and without empty lines, with and without leading tabs on the
+\* continuation lines, at indent levels 0 (top), 1 (func, if) and 2 (iffunc, forlam, ifelse2): a second pass must not
+\* move the continuation lines (C03), the text of the comment is part of the tree (C02, normal mode).
+MlTexts == << "/* a\nb */", "/* a\n\tb */", "/* a\n\nb */", "/* a\n\n\tb */", "/*\n * a\n */", "/* a\n\t\n\tb\n*/",
+              "/* a\n\tb\n\n\t\tc\n*/", "/*\n\n\n*/", "/* a\n  b\n\n  c */" >>
+MlFlags == IF Thorough THEN << <<FALSE, FALSE>>, <<TRUE, FALSE>>, <<FALSE, TRUE>>, <<TRUE, TRUE>> >> ELSE << <<FALSE, FALSE>>, <<TRUE, FALSE>> >>
+MlCtx == <<"top", "func", "if", "iffunc", "forlam", "ifelse2">>
+MlPlace(pos, cm) ==
+  CASE pos = "only"   -> <<cm>>
+    [] pos = "first"  -> <<cm, A>>
+    [] pos = "last"   -> <<A, cm>>
+    [] pos = "middle" -> <<A, cm, B>>
+    [] pos = "two"    -> <<cm, cm, A>>
+MlPositions == IF Thorough THEN <<"only", "first", "last", "middle", "two">> ELSE <<"only", "first", "last", "middle">>
+
+\* (4) SOURCE-level family: texts, not trees.  A statement head, a separator, a tail, at top level and inside blocks;
+\* the heads include the keywords and the incomplete expressions after which the parser has to decide whether the
+\* statement goes on.  Whatever the REAL parser accepts - in the whole-file lexer mode and in the REPL's line mode -
+\* is a program, and the laws apply to the tree that came out: a parser that starts to accept a new shape (a bare
+\* `return` followed by a newline and another statement) is seen as soon as the printer cannot write that shape.
+SrcHeads == << "return", "break", "continue", "a", "1", "2.", "a =", "a +", "-", "!", "f", "x =>", "if a {b}", "if a {b} else",
+               "func g()", "i++", "return a", "return -", "a.", "[1,", "f(", "{1:" >>
+SrcSeps  == IF Thorough THEN << " ", "\n", ";", ";\n", "\n\n", " // c\n", " /* c */ ", "\n/* c */\n" >>
+                        ELSE << " ", "\n", ";", "\n\n" >>
+SrcTails == << "a", "-a", "(a)", "[1]", "{1: 2}", ".5", "++i", "i++", "=> a", "else {c}", "{c}", "+ a", "= 1", "b.c", "x * 2",
+               "return", "\"s\"", "1", "if a {b}", "(x) => x", "2]", "b)", "2}" >>
+SrcBlockNames == IF Thorough THEN <<"top", "func", "if", "else", "for", "lambda">> ELSE <<"top", "func">>
+SrcIn(name, text) ==
+  CASE name = "top"    -> text
+    [] name = "func"   -> "func g(x) {" \o text \o "}"
+    [] name = "if"     -> "if z {" \o text \o "}"
+    [] name = "else"   -> "if z {1} else {" \o text \o "}"
+    [] name = "for"    -> "for z {" \o text \o "}"
+    [] name = "lambda" -> "f = x => {" \o text \o "}"
+
 \* ------------------------------------------------------------------ GEN machine
 \* One step from the initial state per generated tree: `cur` names the tree (so TLC enumerates
 \* every binding of the generator's quantifiers), the tree itself is emitted as a JSON line.
@@ -338,6 +407,8 @@ Emit(fam, name, prog) ==
   /\ cur' = <<fam, name>>
   /\ Assert(WFList(prog), <<"ill-formed generated tree", fam, name>>)
   /\ EmitLine(ToJson([fam |-> fam, name |-> name, t |-> prog]))
+
+EmitSrc(fam, name, text) == cur' = <<fam, name>> /\ EmitLine(ToJson([fam |-> fam, name |-> name, src |-> text]))
 
 GenPrec == cur' = <<"prec">> /\ EmitLine(ToJson([fam |-> "prec", prec |-> Prec, assoc |-> Assoc,
                             lowest |-> PrecLowest, lambda |-> PrecLambda, prefix |-> PrecPrefix,
@@ -453,6 +524,30 @@ GenFnBodies ==
        Emit("fnbody", <<2, l, FvLeft[c], FvChains[d], FvFormNames[f]>>,
             <<FvForm(FvFormNames[f], FvApply(FvChains[d], FvApply(FvLeft[c], FvLeaves[l])))>>)
 
+GenSpineFns == \E k \in 1..Len(PrecClasses) : LET cls == PrecClasses[k] IN
+  \E p \in 1..Len(cls), o1 \in 1..Len(cls), o2 \in 1..Len(cls), f \in 1..(IF Thorough THEN 4 ELSE 1) :
+     Emit("spinefn", <<FvFormNames[f], cls[p], cls[o1], cls[o2]>>, <<FvForm(FvFormNames[f], Inf(cls[p], A, Spine2(cls[o1], cls[o2])))>>)
+
+GenCmtFirst ==
+  \/ \E b \in 1..Len(AllBlockCtx), c \in 1..Len(Cmts), s \in 1..Len(StartClasses) :
+       \* quick: one of the six comment kinds per (block, statement), all of them over the family
+       (IF Thorough \/ c = 1 + ((b + s) % Len(Cmts)) THEN TRUE ELSE FALSE) /\
+       Emit("cmtfirst", <<AllBlockCtx[b], c, StartClasses[s].n>>, InDeep(AllBlockCtx[b], <<Cmts[c], StartClasses[s].t>>))
+  \/ \E b \in 1..Len(AllBlockCtx), s \in 1..Len(StartClasses) :
+       (IF Thorough \/ s > Len(Stmts) THEN TRUE ELSE FALSE) /\
+       Emit("cmtfirst", <<AllBlockCtx[b], "two", StartClasses[s].n>>, InDeep(AllBlockCtx[b], <<Cmts[2], Cmts[4], StartClasses[s].t>>))
+  \/ \E b \in 1..Len(AllBlockCtx), s \in (Len(Stmts) + 1)..Len(StartClasses) :
+       Thorough /\ Emit("cmtfirst", <<AllBlockCtx[b], "then", StartClasses[s].n>>, InDeep(AllBlockCtx[b], <<Cmts[3], StartClasses[s].t, StartClasses[s].t>>))
+
+GenDotNums == \E b \in 1..Len(DotBlockCtx), i \in 1..Len(DotEnds), j \in 1..Len(DotStarts) :
+  Emit("dotnum", <<DotBlockCtx[b], i, j>>, InDeep(DotBlockCtx[b], <<DotEnds[i], DotStarts[j]>>))
+
+GenMlComments == \E b \in 1..Len(MlCtx), t \in 1..Len(MlTexts), f \in 1..Len(MlFlags), p \in 1..Len(MlPositions) :
+  Emit("mlcomment", <<MlCtx[b], t, f, MlPositions[p]>>, InDeep(MlCtx[b], MlPlace(MlPositions[p], Cmt(MlTexts[t], MlFlags[f][1], MlFlags[f][2]))))
+
+GenSources == \E b \in 1..Len(SrcBlockNames), h \in 1..Len(SrcHeads), s \in 1..Len(SrcSeps), t \in 1..Len(SrcTails) :
+  EmitSrc("source", <<SrcBlockNames[b], h, s, t>>, SrcIn(SrcBlockNames[b], SrcHeads[h] \o SrcSeps[s] \o SrcTails[t]))
+
 Init == phase = 0 /\ cur = <<>>
 Next == /\ phase = 0
         /\ phase' = 1
@@ -469,4 +564,9 @@ Next == /\ phase = 0
            \/ "fnbody" \in Families /\ GenFnBodies
            \/ "spine" \in Families /\ GenSpines
            \/ "sibling" \in Families /\ GenSiblings
+           \/ "spinefn" \in Families /\ GenSpineFns
+           \/ "cmtfirst" \in Families /\ GenCmtFirst
+           \/ "dotnum" \in Families /\ GenDotNums
+           \/ "mlcomment" \in Families /\ GenMlComments
+           \/ "source" \in Families /\ GenSources
 =============================================================================
